@@ -192,6 +192,26 @@ impl Inst {
                                 }
                             }
                         }
+                        // DfsPostOrder: continue with move_to(second), then reset
+                        {
+                            let t = self.second;
+                            po.move_to(t);
+                            let mut pseq2 = vec![];
+                            while let Some(v) = po.next(g) {
+                                pseq2.push(v);
+                            }
+                            let mut both = pseq.clone();
+                            both.extend(pseq2.iter().cloned());
+                            if once("dfs_post_order_move_to", n, &both) {
+                                check_set("dfs_post_order_move_to", n, &pseq2, |v| format!("(and (not {}) {} (not {}))", st.r[s][t], st.r[t][v], st.r[s][v]));
+                            }
+                            po.reset(g);
+                            po.move_to(t);
+                            let pseq3: Vec<usize> = po.iter(g).collect();
+                            if once("dfs_post_order_reset", n, &pseq3) {
+                                check_set("dfs_post_order_reset", n, &pseq3, |v| st.r[t][v].clone());
+                            }
+                        }
                     }
                     Kind::Topo => {
                         let mut topo = Topo::new(g);
@@ -458,6 +478,41 @@ impl Harness for Inst {
                         let d: Vec<usize> = Dfs::new(&g, s).iter(&g).map(|x| x.index()).collect();
                         let b: Vec<usize> = Bfs::new(&g, s).iter(&g).map(|x| x.index()).collect();
                         let p: Vec<usize> = DfsPostOrder::new(&g, s).iter(&g).map(|x| x.index()).collect();
+                        // continuations: move_to(second) after the first walk, then reset + move_to(second)
+                        let t = NodeIndex::new(self.second);
+                        {
+                            let mut w = Dfs::new(&g, s);
+                            while w.next(&g).is_some() {}
+                            w.move_to(t);
+                            let mut c: Vec<usize> = vec![];
+                            while let Some(x) = w.next(&g) {
+                                c.push(x.index());
+                            }
+                            w.reset(&g);
+                            w.move_to(t);
+                            let mut f: Vec<usize> = w.iter(&g).map(|x| x.index()).collect();
+                            let mut po = DfsPostOrder::new(&g, s);
+                            while po.next(&g).is_some() {}
+                            po.move_to(t);
+                            let mut pc: Vec<usize> = vec![];
+                            while let Some(x) = po.next(&g) {
+                                pc.push(x.index());
+                            }
+                            po.reset(&g);
+                            po.move_to(t);
+                            let mut pf: Vec<usize> = po.iter(&g).map(|x| x.index()).collect();
+                            let want_c: Vec<usize> = (0..n).filter(|&v| !r[self.start][self.second] && r[self.second][v] && !r[self.start][v]).collect();
+                            let want_f: Vec<usize> = (0..n).filter(|&v| r[self.second][v]).collect();
+                            c.sort();
+                            pc.sort();
+                            f.sort();
+                            pf.sort();
+                            for (nm, got, want) in [("dfs_move_to", &c, &want_c), ("dfs_post_order_move_to", &pc, &want_c), ("dfs_reset", &f, &want_f), ("dfs_post_order_reset", &pf, &want_f)] {
+                                if got != want {
+                                    bad.push(format!("{}: emitted {:?}, expected {:?}", nm, got, want));
+                                }
+                            }
+                        }
                         for (nm, seq) in [("dfs", &d), ("bfs", &b), ("dfs_post_order", &p)] {
                             let mut sorted = seq.clone();
                             sorted.sort();
@@ -611,8 +666,11 @@ fn make(tier: &str, _seed: u64) -> Vec<Box<dyn Harness>> {
         }
         add(Kind::Walkers, 5, true, 0, 3, 8);
         add(Kind::Walkers, 5, false, 2, 4, 5);
-        add(Kind::DfsVisit, 4, true, 0, 2, 6);
         add(Kind::Topo, 5, true, 0, 0, 8);
+        // 4 nodes with at most 2 non-Continue answers (3 answers on 4 nodes ran for more than 75 minutes)
+        for val in 0..64 {
+            v.push(Box::new(Inst { kind: Kind::DfsVisit, n: 4, directed: true, start: 0, second: 2, split_bits: 6, split_val: val, max_dev: 2, multi: false }));
+        }
     }
     v
 }
